@@ -38,6 +38,9 @@ func c04(c *Ctx) {
 	c04R5(c)
 	c04R6(c)
 	c04R7(c)
+	walSkipRule(c, "R8")
+	replayAllLinesRule(c, "R9")
+	fastSyncHandoverRule(c, "R10")
 }
 
 // classify a stored value: "nil", "zero", or the rendered expression
